@@ -113,7 +113,7 @@ func newMPSys(cfg drv.Config, u *mpUniverse, prop string) (*mpSys, error) {
 
 func (s *mpSys) Close() { s.w.Close() }
 func (s *mpSys) Key() string {
-	return drv.KeyOf(s.w.Snapshot(drv.SnapOpts{Uploads: true, Versions: s.w.Cfg.Kind == drv.Mem}) + fmt.Sprintf("inits=%d", min(s.inits, 1)))
+	return drv.KeyOf(s.w.Snapshot(drv.SnapOpts{Uploads: true, Versions: s.w.Cfg.Kind == drv.Mem}) + fmt.Sprintf("inits=%d", min(s.inits, 1)) + "MODEL " + s.renderModel())
 }
 
 func min(a, b int) int {
@@ -490,4 +490,24 @@ func init() {
 		c.Assumptions = append(c.Assumptions, "multipart ETag is required on the Complete result only", "empty part lists and duplicate part numbers are outside the statement and not generated")
 		runMP(c, "C06")
 	}
+}
+
+func (s *mpSys) renderModel() string {
+	out := ""
+	for i, u := range s.m.Uploads {
+		out += fmt.Sprintf("U%d %s %v:", i, u.Key, len(u.Meta))
+		for _, n := range u.PartNumbers() {
+			out += fmt.Sprintf(" %d=%s", n, u.Parts[n].Body)
+		}
+		out += "\n"
+	}
+	var ks []string
+	for k := range s.m.Objects {
+		ks = append(ks, k)
+	}
+	sort.Strings(ks)
+	for _, k := range ks {
+		out += "O " + k + " " + string(s.m.Objects[k].Body) + "\n"
+	}
+	return out + fmt.Sprintf("closed=%d", len(s.m.Closed))
 }
